@@ -88,7 +88,9 @@ impl<T: FromMeta> FromMeta for SpannedValue<T> {
             // should have the span pointing to the word `skip`.
             syn::Meta::Path(path) => path.span(),
             // Example: `#[darling(attributes(Value))]` as a SpannedValue<Vec<String>>
-            // should have the span pointing to the list contents.
+            // should have the span pointing to the list contents; an empty list has
+            // no contents to point at, so its delimiters stand in for them.
+            syn::Meta::List(list) if list.tokens.is_empty() => list.delimiter.span().join(),
             syn::Meta::List(list) => list.tokens.span(),
             // Example: `#[darling(skip = true)]` as SpannedValue<bool>
             // should have the span pointing to the word `true`.
